@@ -426,9 +426,14 @@ class DigitFlow(object):
             return 'N'
         if fn == 'to_fixed':
             k = self.kind(args[0], env)
-            return ('T0', k)
+            return ('T0', k, 'bin')
         if fn in DIGIT_FUNCS:
-            return self.kind(args[0], env)
+            k = self.kind(args[0], env)
+            if isinstance(k, tuple) and k[0] in ('T0', 'T1'):
+                # from here on the number is a DECIMAL fixed-point number / a digit string: adding one unit to it
+                # is not the neighbour of the binary fixed-point number any more
+                return (k[0], k[1], 'dec')
+            return k
         if fn in self.mod.funcs and fn not in ROUNDERS:
             # a helper of the digit path: certified helpers return the floor digits of their argument
             k = self.kind(args[0], env) if args else 'E'
@@ -450,7 +455,10 @@ class DigitFlow(object):
             a, b = self.kind(e.left, env), self.kind(e.right, env)
             if isinstance(a, tuple) and a[0] == 'T0' and isinstance(e.op, ast.Add) and \
                     isinstance(e.right, ast.Constant) and e.right.value == 1:
-                return ('T1', a[1])
+                if len(a) > 2 and a[2] == 'bin':
+                    return ('T1', a[1], 'bin')
+                # one unit of the DECIMAL number is between 0.3 and 3.3 binary units: no bound on the true value
+                return 'N'
             for k in (a, b):
                 if k not in ('E', 'I'):
                     return k if isinstance(k, str) else 'N'
